@@ -274,8 +274,8 @@ def requests (evs : List Ev) : Nat := evs.count .request
 
 /-- `ApplyTaskResult` / `ApplyTaskDataOutput`: for each DECLARED name, in order, store the supplied value if there
 is one (first match of the name among the supplied pairs) -/
-def restrictTo (α : Type) (declared : List String) (set : α → String → Int → α) (store : α)
-    (supplied : List (String × Int)) : α :=
+def restrictTo {α β : Type} (declared : List String) (set : α → String → β → α) (store : α)
+    (supplied : List (String × β)) : α :=
   declared.foldl (fun st name =>
     match supplied.find? (·.1 == name) with
     | some (_, v) => set st name v
